@@ -43,6 +43,10 @@ def usageCalls : List (String × String × String × String × String) := [
   ("GPValve.headloss_curve_name.setter", "set_curve_type", "curve", "name", "'HEADLOSS'"),
   ("Source.__init__", "add_usage", "pattern", "self._strength_timeseries.pattern_name", "(name, 'Source')"),
   ("Source.__init__", "add_usage", "node", "node_name", "(name, 'Source')"),
+  ("Source.name.setter", "remove_usage", "pattern", "pat", "(self._name, 'Source')"),
+  ("Source.name.setter", "add_usage", "pattern", "pat", "(value, 'Source')"),
+  ("Source.name.setter", "remove_usage", "node", "self._node_name", "(self._name, 'Source')"),
+  ("Source.name.setter", "add_usage", "node", "self._node_name", "(value, 'Source')"),
   ("Source.node_name.setter", "remove_usage", "node", "self._node_name", "(self._name, 'Source')"),
   ("Source.node_name.setter", "add_usage", "node", "value", "(self._name, 'Source')")
 ]
